@@ -109,7 +109,30 @@ func runC18(args []string) {
 			_ = bt.StopIncrementalRebalancing()
 		})
 		ev["returned"], ev["panic"] = ret, pm
+	case "ticker-with-work": // the background goroutine really consumes pending nodes while progress is queried
+		ret, pm := timed(20*time.Second, func() {
+			for round := 0; round < 40; round++ {
+				bt := verifapi.NewWritableBTreeV2(4096)
+				bt.EnableLazyRebalancing(verifapi.DefaultLazyConfig())
+				bt.VerifSeedUnderflowNodes(20000)
+				ic := verifapi.DefaultIncrementalConfig()
+				ic.Interval, ic.Budget = 20*time.Microsecond, 5*time.Microsecond
+				_ = bt.EnableIncrementalRebalancing(ic)
+				for i := 0; i < 3000; i++ {
+					_, _ = bt.GetIncrementalRebalancingProgress()
+					if i%8 == 0 {
+						runtime.Gosched()
+					}
+					if i%500 == 0 {
+						time.Sleep(30 * time.Microsecond) // let several ticks happen while queries go on
+					}
+				}
+				_ = bt.StopIncrementalRebalancing()
+			}
+		})
+		ev["returned"], ev["panic"] = ret, pm
 	case "queries-vs-stop": // progress / enabled queries from one goroutine while another stops
+		var qpanics atomic.Int64
 		ret, pm := timed(20*time.Second, func() {
 			for round := 0; round < 60; round++ {
 				bt := newLazyIncr()
@@ -117,6 +140,11 @@ func runC18(args []string) {
 				wg.Add(2)
 				go func() {
 					defer wg.Done()
+					defer func() {
+						if r := recover(); r != nil {
+							qpanics.Add(1)
+						}
+					}()
 					for i := 0; i < 200; i++ {
 						_, _ = bt.GetIncrementalRebalancingProgress()
 						_ = bt.IsIncrementalRebalancingEnabled()
@@ -131,6 +159,9 @@ func runC18(args []string) {
 			}
 		})
 		ev["returned"], ev["panic"] = ret, pm
+		if qpanics.Load() > 0 && pm == "" {
+			ev["panic"] = fmt.Sprintf("nil pointer dereference in a query racing with stop x%d", qpanics.Load())
+		}
 	case "double-stop": // two goroutines stop the same rebalancer at once
 		var panics atomic.Int64
 		ret, pm := timed(20*time.Second, func() {
